@@ -54,7 +54,10 @@ def crash_shard(shard, nshards, payload):
     st = Stats()
     tier = payload['tier']
     combos = []
-    for d1, opt in ([('A', 'noann'), ('A', 'def'), ('V', 'def')] if tier == 'quick' else [('A', 'noann'), ('A', 'def'), ('A2', 'def'), ('B', 'def'), ('V', 'def'), ('C', 'novec')]):
+    decls = [('A', 'noann'), ('A', 'def'), ('V', 'def')] if tier == 'quick' else [('A', 'noann'), ('A', 'def'), ('A2', 'def'), ('B', 'def'), ('V', 'def'), ('C', 'novec')]
+    if payload.get('o'):
+        decls = [('A', 'def')]          # under python -O: one declaration from every initial state
+    for d1, opt in decls:
         for iname, how in init_states(tier).items():
             combos.append((d1, opt, iname, how))
     scratch = common.new_scratch_dir('c16c')
@@ -287,6 +290,9 @@ def conc_shard(shard, nshards, payload):
     scratch = common.new_scratch_dir('c16i')
     cache.write_source(scratch)
     jobs = conc_jobs(tier)
+    if payload.get('o'):
+        jobs = [('def', 'A', 'A2', 'empty', None, 0, (True, True), None), ('def', 'A', 'A2', 'module(other)+pyc', 'other+', 0, (True, True), None),
+                ('def', 'A', 'B', 'module(sibling)', 'sibling-', 0, (True, True), None)]
     cap = 5000 if tier == 'quick' else 60000
     for j, (opt, d1, d2, iname, how, ticks, wb, bufsize) in enumerate(jobs):
         if j % nshards != shard:
@@ -317,8 +323,18 @@ def both_shard(shard, nshards, payload):
     return ('both', a, b)
 
 
+def o_shard(shard, nshards, payload):
+    """a reduced exploration (one declaration's crash points and failing steps from every initial state, three interleaving jobs)
+    inside an interpreter started with -O"""
+    st = crash_shard(shard, nshards, payload)
+    st.merge(conc_shard(shard, nshards, payload))
+    return st
+
+
 def run(tier):
     parts = common.run_sharded(both_shard, {'tier': tier})
+    from mc import ea_o
+    so = ea_o.run_shard('mc.props.c16', 'o_shard', {'tier': 'quick', 'o': True})
     a, b = Stats(), Stats()
     for part in parts:
         if part[0] == 'conc':
@@ -331,6 +347,8 @@ def run(tier):
     st = Stats()
     st.merge(a)
     st.merge(b)
+    st.merge(so)              # the reduced exploration under python -O (its signatures carry the prefix 'python -O:')
+    st.notes.extend(so.notes)
     capped = b.n.get('capped', 0)
     if not st.samples:
         st.sample({'note': 'see rule'})
@@ -348,7 +366,7 @@ def run(tier):
                 'from every distinct resulting directory a fresh process defines the same / the same-length sibling / another declaration; '
                 'interleavings: depth-first search over all schedules of the file-system steps of two defining processes with <=1 clock tick, pruned by a '
                 'visited set over (directory contents+mtimes, clock, per process: program counter + digest of all its observations); transitions = '
-                'interposed file-system steps executed' % ('all combinations' if tier == 'thorough' else 'per character for two combinations, first/middle/last for the others',
+                'interposed file-system steps executed; a reduced exploration (one declaration from every initial state, three pairs) once more inside interpreters started with -O' % ('all combinations' if tier == 'thorough' else 'per character for two combinations, first/middle/last for the others',
                                                          len(init_states(tier))),
         'exhaustive': capped == 0, 'bounds': {'processes': 2, 'clock_ticks': 1}, 'distinct_outcomes': st.count('outcomes'), 'samples': st.samples,
     }
